@@ -697,12 +697,14 @@ class Engine:
             return PyObj("opaque", None)
         if not isinstance(base, Ref):
             raise Unsupported("subscript of non-array at line %s" % node.lineno)
-        if st.heap[base.base].kind == "dict":
+        if st.heap[base.base].kind == "dict" and not base.prefix:
             key = to_z3(self.ev(sl, st, guard))
             self.dict_keyed(st, base, key)
             ho = self.dict_val_arr(st, base)
             self.emit("%s.safety.key(%s)" % (self.fn_key.split("::")[-1], ast.unparse(node)), "safety", st,
                       z3.Select(ho.dom, key), node.lineno, guard, note="dict lookup on a present key")
+            if ho.ndim == 2:        # a dict of fixed-width rows: the value is a view of the row
+                return Ref(base.base, (key,))
             return z3.Select(ho.arr, key)
         if isinstance(sl, ast.Slice):
             raise Unsupported("slice at line %s" % node.lineno)
@@ -1112,7 +1114,18 @@ class Engine:
             base = self.ev(target.value, st)
             if not isinstance(base, Ref):
                 raise Unsupported("subscript store into non-array")
-            if st.heap[base.base].kind == "dict":
+            if st.heap[base.base].kind == "dict" and not base.prefix and st.heap[base.base].ndim == 2:
+                ho = st.heap[base.base]
+                key = to_z3(self.ev(target.slice, st))
+                width = ho.shape[1].as_long()
+                if not (isinstance(val, tuple) and len(val) == width):
+                    raise Unsupported("store into a dict of %d-rows of something else" % width)
+                row = fresh(base.base + ".row", arr_sort(ho.elem, 1))       # a fresh list object
+                for k_, v_ in enumerate(val):
+                    row = z3.Store(row, k_, coerce(v_, ho.elem))
+                st.heap[base.base] = ho.replace(arr=z3.Store(ho.arr, key, row), dom=z3.Store(ho.dom, key, z3.BoolVal(True)))
+                return
+            if st.heap[base.base].kind == "dict" and not base.prefix:
                 key = to_z3(self.ev(target.slice, st))
                 self.dict_keyed(st, base, key)
                 ho = self.dict_val_arr(st, base, like=val)
@@ -1713,6 +1726,12 @@ class Engine:
                 continue
             if p in (c.fixed or {}):
                 st.env[p] = c.fixed[p]
+                continue
+            if ty.kind == "rowdict":
+                base = "in_%s#%d" % (p, next(_fresh))
+                st.heap[base] = HeapObj(z3.Const(base, arr_sort(ty.elem, 2)), [z3.IntVal(0), z3.IntVal(ty.width)], ty.elem, 2,
+                                        "dict", dom=z3.Const(base + ".dom", z3.ArraySort(I, B)))
+                st.env[p] = Ref(base)
                 continue
             if ty.kind in ("arr", "list", "set", "setlist", "pairset"):
                 ref = self.new_array(st, "in_" + p, ty.elem, ty.ndim, kind=ty.kind)
